@@ -8,6 +8,7 @@
 //! Exit codes: 0 held, 1 violation (with `VIOLATION property=<id> replay=<path>`), 2 harness error.
 
 mod audit;
+mod crash;
 mod engine;
 mod gen;
 mod model;
